@@ -345,6 +345,10 @@ def run_check(prop, cfg, tier, seed, workdir):
         ft = failing_theorem(out_thm, module)
         log(out_thm[-2500:])
         broken.append("proof obligations of %s no longer check: %s" % (module, ", ".join(ft) or "see log"))
+    if cfg.get("extra"):
+        ex = cfg["extra"]()
+        broken.extend(ex)
+        notes.append("extra obligations (%s): %d findings" % (cfg["extra"].__name__, len(ex)))
     forbidden = grep_forbidden()
     if forbidden:
         broken.append("forbidden constructs in Lean sources: %s" % forbidden[:3])
